@@ -443,6 +443,14 @@ HISTORIES = {
     "include_ok_twice_and_other": [("write", "inc.xbb", INC_OK), ("write", "main.xbb", MAIN), ("write", "other.xbb", MAIN2), ("load", "main.xbb"), ("load", "other.xbb"), ("load", "main.xbb")],
     "template_include_bad_call_then_good": [("write", "tinc.xbb", TINC), ("write", "bad.xbb", TMAIN_BAD), ("write", "good.xbb", TMAIN_OK), ("load", "bad.xbb"), ("load", "good.xbb"), ("load", "bad.xbb"), ("load", "good.xbb")],
     "loop_body_failure_then_metadata_option": [("loads", LOOPFAIL), ("loads", USESKEEP), ("loads", LOOPFAIL), ("loads", USESKEEP)],
+    "include_rewritten_between_loads": [("write", "inc.xbb", INC_OK), ("write", "main.xbb", MAIN), ("load", "main.xbb"),
+                                        ("write", "inc.xbb", "name inc\nversion 1.0\n\nRgate(1.5) | 1\nVac | 0\n"), ("load", "main.xbb"), ("write", "other.xbb", MAIN2), ("load", "other.xbb")],
+    "included_name_used_without_include": [("write", "inc.xbb", INC_OK), ("write", "main.xbb", MAIN), ("load", "main.xbb"),
+                                           ("loads", "name plain\nversion 1.0\n\ninc | [1, 2]\ninc(0.5) | 3\n"), ("load", "main.xbb")],
+    "division_by_zero_then_singular_functions": [("loads", "name z\nversion 1.0\n\nfloat x = 1.5\nDgate(x/0) | 0\n"), ("loads", "name s\nversion 1.0\n\nDgate(log(0), arctanh(1)) | 0\nRgate(0.0**-1) | 1\n"),
+                                                 ("loads", "name z\nversion 1.0\n\nDgate(1/0.0, sqrt(-1)) | 0\n"), ("loads", "name s\nversion 1.0\n\nDgate(log(0)) | 0\n")],
+    "failing_expression_kinds_then_valid": [("loads", "name a\nversion 1.0\n\nDgate(2**-1) | 0\n"), ("loads", "name b\nversion 1.0\n\nint n = 1+2j\n"), ("loads", "name c\nversion 1.0\n\nVac | 0.5\n"),
+                                            ("loads", "name d\nversion 1.0\n\nfloat array A[3, 3] =\n    1, 2\n"), ("loads", "name e\nversion 1.0\n\nDgate(4/(1+1), 2**3, sqrt(16)) | 0\nfor int i in 0:2\n    Vac | i\n")],
     "strings_then_files": [("loads", LOOPFAIL), ("write", "inc.xbb", INC_OK), ("write", "main.xbb", MAIN), ("load", "main.xbb"), ("loads", USESKEEP)],
 }
 
